@@ -98,7 +98,7 @@ Inductive path :=
 | PElemN           (* m[i][j] = e;        ArrayManager::setMultidimensionalArrayElement: clamp only *)
 | PLit1            (* T[n] a = [..];      CommonOperations::assign_array_literal: clamp only; read narrows *)
 | PLitN            (* T[n][m] a = [[..]]; same, multi-dimensional storage: clamp only *)
-| PGlobalArr       (* global T[n] a=[..]; same as PLit1 *)
+| PGlobalArr       (* global T[n] a=[..]; same store, but a global array has lost is_unsigned: no clamp at all *)
 | PAssignFromElemN (* x = m[i][j];        the value passes consume_numeric_typed_value: pointer-looking values skip the check *).
 
 (* the value a later read of the cell yields (what the property speaks about), or the error *)
@@ -110,7 +110,8 @@ Definition mech_store (p : path) (t : ty) (v : Z) : ctl Z :=
   | PIncDecElem1 => Val (narrow_read t v)
   | PElem1 | PElem1Compound => match clamp_check t v with Val w => Val (narrow_read t w) | other => other end
   | PElemN | PLitN => Val (mech_clamp (uns t) v)
-  | PLit1 | PGlobalArr => Val (narrow_read t (mech_clamp (uns t) v))
+  | PLit1 => Val (narrow_read t (mech_clamp (uns t) v))
+  | PGlobalArr => Val (narrow_read t v)
   | PAssignFromElemN => if looks_like_pointer v then Val (mech_clamp (uns t) v) else clamp_check t v
   end.
 
